@@ -139,6 +139,10 @@ pub struct Prog {
     pub extras: BTreeMap<String, Box<dyn Any + Send + Sync>>,
 }
 
+/// Response tables of a second instantiation of a generic contract: (tables of the parts, contract-level table).
+#[allow(clippy::type_complexity)]
+pub struct AltSchemas(pub fn() -> Result<(Vec<BTreeMap<String, RootSchema>>, BTreeMap<String, RootSchema>), String>);
+
 pub struct ProgBuilder {
     p: Prog,
 }
